@@ -5,6 +5,8 @@ import hashlib
 import json
 import os
 
+import subprocess
+
 from vlib import (NCPU, SPEC, WORK, BIN, ToolError, count_lines, log, read_ndjson_line,
                   run_harness, run_tlc, seed, tlc_many, workdir)
 
@@ -171,11 +173,11 @@ def product(ck, name, families, full=False, shards=2, timeout=3000, mks=("std", 
 
 
 def calls(ck, name, family, scale=1, shards=NCPU, timeout=3000, spec="TraceCalls",
-          mks=("std", "lf", "ll"), an="both", flav="all"):
+          mks=("std", "lf", "ll"), an="both", flav="all", sub="calls"):
     """B2: record calls on the real code, validate every line against the oracle."""
     wd = workdir("calls_" + name)
     prefix = os.path.join(wd, "trace")
-    st = run_harness(["calls", "--family", family, "--out", prefix, "--shards", shards,
+    st = run_harness([sub, "--family", family, "--out", prefix, "--shards", shards,
                       "--seed", seed(), "--scale", scale, "--mks", ",".join(mks), "--an", an,
                       "--flav", flav])
     jobs, files, nlines = [], [], []
@@ -331,4 +333,91 @@ def streams(ck, name, family, scale=1, faults=False, maxstream=4, sizes="1,2,3",
              wall=round(max([r.wall for r in results] or [0]), 1))
     if files and nlines[0] >= 3:
         ck.sample(read_ndjson_line(files[0], 3))
+    return st
+
+
+def validate_call_files(ck, name, files, what):
+    """TraceCalls over already written files (shared by guard / threads / ids)."""
+    jobs, nlines, fs = [], [], []
+    for i, f in enumerate(files):
+        n = count_lines(f)
+        if n == 0:
+            continue
+        fs.append(f)
+        nlines.append(n)
+        jobs.append(dict(module="TraceCalls", cfg=os.path.join(SPEC, "TraceCalls.cfg"),
+                         name="%s_%d" % (name, i), env={"TRACE": f}, workers=2, timeout=3000, xmx="3g"))
+    results = tlc_many(jobs, parallel=NCPU)
+    nrej = 0
+    for f, n, res in zip(fs, nlines, results):
+        ck.add_tlc(res)
+        if res.distinct != n:
+            raise ToolError("trace %s: %d lines but TLC consumed %d" % (f, n, res.distinct))
+        for r in res.tagged("REJECT"):
+            nrej += 1
+            if len(ck.violations) + len(ck.known_hits) > 100:
+                continue
+            ev = read_ndjson_line(f, r["line"])
+            ctx = read_ndjson_line(f, ev["c"])["ctx"] if ev.get("ev") != "ctx" else ev["ctx"]
+            call = ev["calls"][r["call"] - 1] if ev.get("ev") == "multi" and r.get("call") else None
+            pats_s = json.dumps(ctx["pats"])
+            sig = "%s:%s:%s:%s" % (what, r["ev"], ctx["mk"], pats_s[:200])
+            ck.violation("%s: %s on %s (%s, pats=%s) hay=%s: %s; observed %s"
+                         % (what, r["ev"], ctx["repr"], ctx["mk"], pats_s[:200], json.dumps(ev.get("hay"))[:200],
+                            r["why"], json.dumps(call)[:300]),
+                         {"signature": sig, "kind": what, "ctx": ctx if len(pats_s) < 5000 else {"mk": ctx["mk"]},
+                          "event": {k: v for k, v in ev.items() if k != "calls"}, "call": call, "why": r["why"]})
+    ck.distinct += distinct_calls(fs)
+    return nrej, results, fs
+
+
+def guard(ck, name, scale=1, shards=8):
+    """C15: a child process searches haystacks placed flush against PROT_NONE pages."""
+    wd = workdir("guard_" + name)
+    prefix = os.path.join(wd, "trace")
+    r = subprocess.run([BIN, "guard", "--out", prefix, "--shards", str(shards), "--seed", str(seed()),
+                        "--scale", str(scale)], stdout=subprocess.PIPE, stderr=subprocess.PIPE, text=True)
+    cur = {}
+    try:
+        with open(prefix + ".current") as f:
+            cur = json.load(f)
+    except Exception:
+        pass
+    if r.returncode != 0:
+        ck.violation("the child process searching guard-page-backed haystacks died with status %d while running: %s"
+                     % (r.returncode, json.dumps(cur)[:600]),
+                     {"signature": "guard:%s" % json.dumps(cur)[:300], "kind": "guard-crash",
+                      "status": r.returncode, "case": cur})
+        ck.stage("guard-pages", status=r.returncode, case=cur)
+        ck.evaluations += 1
+        return
+    if not cur.get("finished"):
+        raise ToolError("guard child did not finish")
+    files = ["%s.%d.ndjson" % (prefix, i) for i in range(shards)]
+    nrej, results, fs = validate_call_files(ck, "guard_" + name, files, "guard")
+    ck.traces += cur["cases"]
+    ck.evaluations += cur["cases"]
+    ck.stage("guard-pages", cases=cur["cases"], rejected=nrej, status=0,
+             wall=round(max([x.wall for x in results] or [0]), 1))
+    if fs:
+        ev = read_ndjson_line(fs[0], 2)
+        ck.sample({"placement": "flush against PROT_NONE page (right and left)", "len": len(ev.get("hay", [])),
+                   "hay": ev.get("hay", [])[:24], "calls": (ev.get("calls") or [])[:2]})
+
+
+def harness_calls(ck, name, sub, scale=1, shards=8, what=None):
+    """generic: harness subcommand writing TraceCalls-format files"""
+    wd = workdir(name)
+    prefix = os.path.join(wd, "trace")
+    st = run_harness([sub, "--out", prefix, "--shards", shards, "--seed", seed(), "--scale", scale])
+    files = ["%s.%d.ndjson" % (prefix, i) for i in range(shards)]
+    nrej, results, fs = validate_call_files(ck, name, files, what or sub)
+    ck.traces += st.get("events", 0)
+    ck.evaluations += st.get("events", 0)
+    ck.stage("B2-" + (what or sub), contexts=st.get("contexts"), events=st.get("events"), rejected=nrej,
+             wall=round(max([x.wall for x in results] or [0]), 1))
+    if fs and count_lines(fs[0]) >= 2:
+        ev = read_ndjson_line(fs[0], 2)
+        ck.sample({"hay": (ev.get("hay") or [])[:32], "thread": ev.get("thread"),
+                   "calls": [str(c)[:200] for c in (ev.get("calls") or [])[:2]]})
     return st
